@@ -41,8 +41,21 @@ func VsymC08_Truncate() {
 	vsymPut64(batch, 35, uint64(maxTs))
 	cutoff := vsym_Int64("cutoff")
 	vsym_Assume(vsym_And(cutoff >= 0, cutoff < 1<<51))
+	// attributes: any codec in the low three bits. A compressed batch cannot be cut (its records
+	// are not scannable): it is kept whole, dropped whole, or the restore fails — never rewritten.
+	attrs := vsym_Uint16("attributes")
+	batch[21], batch[22] = byte(attrs>>8), byte(attrs)
 	orig := append([]byte(nil), batch...)
 	got, keep, done, err := truncateRecordBatchToTimestamp(batch, cutoff)
+	if attrs&7 != 0 {
+		vsym_Reach("compressed")
+		straddles := vsym_And(firstTs <= cutoff, maxTs > cutoff)
+		vsym_Assert(vsym_Implies(straddles, err != nil), "C08/compressed-batch-is-never-cut")
+		if err == nil && keep {
+			vsym_Assert(vsym_BytesEq(got.Bytes, orig) && len(got.Bytes) == len(orig), "C08/compressed-batch-kept-byte-identical")
+		}
+		return
+	}
 	vsym_Assert(err == nil, "C08/well-formed-batch-accepted")
 	vsym_Reach("truncated")
 	// reference: the longest prefix of records none of which is later than the cutoff
@@ -141,8 +154,16 @@ func vsymC08Segment(s3 *vsymS3, part int32, base int64, createdMs int64, tss []i
 func VsymC08_Recover() {
 	base := newVsymS3()
 	// partition 0: two segments (created at 1000 and 2000 ms), partition 1: one segment
-	vsymC08Segment(base, 0, 0, 1000, []int64{900, 950})
-	vsymC08Segment(base, 0, 2, 2000, []int64{1900, 1950, 2100})
+	skew := vsym_Bool("segment-creation-times-out-of-order")
+	if skew {
+		// broker clocks disagreed: the earlier segment carries the later creation time and a
+		// record later than the other segment's
+		vsymC08Segment(base, 0, 0, 2500, []int64{900, 2400})
+		vsymC08Segment(base, 0, 2, 1500, []int64{1400, 1450, 1480})
+	} else {
+		vsymC08Segment(base, 0, 0, 1000, []int64{900, 950})
+		vsymC08Segment(base, 0, 2, 2000, []int64{1900, 1950, 2100})
+	}
 	vsymC08Segment(base, 1, 0, 1500, []int64{1400, 1600})
 	s3 := &vsymFlakyS3{vsymS3: base}
 	if !vsym_Bool("faults") {
@@ -187,6 +208,9 @@ func VsymC08_Recover() {
 			last, perr := parseSegmentFooter(v[len(v)-16:])
 			vsym_Assert(perr == nil && last == int64(binary.BigEndian.Uint64(v[8:16]))+int64(len(tb)/stride)-1, "C08/target-footer-matches-kept-records")
 		}
+	}
+	if skew {
+		return
 	}
 	// partition 0, first segment: kept whole whenever the second one is a candidate too
 	if tms >= 2000 {
